@@ -135,10 +135,11 @@ func (a *Application) getProviderEndpoints(ctx context.Context, providerType str
 		}
 	}
 	if len(providerOnly) == 0 {
+		// keep going with the empty set: model routing below still decides whether the
+		// request is answered "not found" or "unavailable"
 		pr.requestLogger.Warn("No healthy endpoint of the requested provider",
 			"provider", providerType,
 			"healthy_endpoints", len(endpoints))
-		return providerOnly, nil
 	}
 
 	providerEndpoints := a.filterEndpointsByProfile(providerOnly, providerProfile, pr.requestLogger)
